@@ -6,7 +6,9 @@ CONSTANTS
   MaxRetry = 1
   UseLock = TRUE
   ReloadAfterLock = TRUE
+  SignOuts = {}
+  SignOutRefreshes = TRUE
 INIT Init
 NEXT Next
-INVARIANTS NoStaleServe FailClosed NewTokensVisible OneRefresh AllServed EmitCase
+INVARIANTS SignedOutStays NoStaleServe FailClosed NewTokensVisible OneRefresh AllServed EmitCase
 CHECK_DEADLOCK FALSE
